@@ -237,11 +237,15 @@ Definition SlashFree (w : world) : Prop :=
   forall i n s, w_nodes w i = Some n -> n_name n = SHORTN -> cdata_of T n = Some (DString s) -> ~ In 47 s.
 Definition AllNamed (w : world) : Prop :=
   forall i n, w_nodes w i = Some n -> identifiable_n T w n = true -> item_name_n T w n <> None.
+(* elements with character content have no sub-elements (nothing can be inserted into them) *)
+Definition CharsLeaf (w : world) : Prop :=
+  forall i n, w_nodes w i = Some n -> content_mode T (n_type n) = Val MCharacters -> elem_ids (n_content n) = [].
 
 Record Inv04 (w : world) : Prop := {
   i4_short : ShortTyped w;
   i4_slash : SlashFree w;
   i4_named : AllNamed w;
+  i4_leaf : CharsLeaf w;
   i4_exact : forall m, IndexExact T w m;
   i4_nodup : forall m, IndexNoDup w m
 }.
@@ -252,8 +256,6 @@ Definition is_short_node (w : world) (i : id) : bool :=
   match w_nodes w i with Some n => n_name n =? SHORTN | None => false end.
 Definition named_node (w : world) (i : id) : bool :=
   match w_nodes w i with Some n => named T (n_type n) | None => false end.
-Definition has_elems (w : world) (i : id) : bool :=
-  match w_nodes w i with Some n => negb (is_empty (elem_ids (n_content n))) | None => false end.
 Definition nm_of (w : world) (i : id) : N := match w_nodes w i with Some n => n_name n | None => 0 end.
 
 (* the position at which a creator without explicit position inserts: the end of the insert range *)
@@ -279,43 +281,6 @@ Definition front (w : world) (h name : N) (pos : option N) : bool :=
   | _ => false
   end.
 
-Definition key_of (i : id) (l : list (list N * id)) : option (list N) :=
-  option_map fst (find (fun e => snd e =? i) l).
-Definition new_name_of (v : cdata) : list N :=
-  match v with DString s => s | _ => match cdata_to_string tab_en v with Val s => s | _ => [] end end.
-
-(* K04-edit: the text of the SHORT-NAME of an identifiable element is edited directly to a name under which another
-   element is already registered: no duplicate check, fix_identifiables re-keys onto the existing key *)
-Definition short_edit_collides (w : world) (h : id) (v : cdata) : bool :=
-  match w_nodes w h with
-  | Some n =>
-    (n_name n =? SHORTN) &&
-    match n_parent n, cdata_of T n with
-    | PElem p, Some (DString oldname) =>
-      match w_nodes w p with
-      | Some pn =>
-        match n_content pn with
-        | CElem s :: _ =>
-          (s =? h) && named T (n_type pn) &&
-          existsb (fun x =>
-            match key_of p (m_idents x) with
-            | Some pp =>
-              match strip_suffix oldname pp with
-              | Some base => let np := base ++ new_name_of v in
-                             negb (bytes_eqb np pp) && match assoc_get np (m_idents x) with Some _ => true | None => false end
-              | None => false
-              end
-            | None => false
-            end) (w_models w)
-        | _ => false
-        end
-      | None => false
-      end
-    | _, _ => false
-    end
-  | None => false
-  end.
-
 Definition Known04 (w : world) (o : op) : bool :=
   match o with
   | OpCreateSub h name | OpGetOrCreate h name | OpCreateNamed h name _ | OpGetOrCreateNamed h name _ => front w h name None
@@ -325,8 +290,6 @@ Definition Known04 (w : world) (o : op) : bool :=
   (* K04-move-short: a SHORT-NAME element is moved away from / into an element *)
   | OpMove h mv => is_short_node w mv || front w h (nm_of w mv) None
   | OpMoveAt h mv pos => is_short_node w mv || front w h (nm_of w mv) (Some pos)
-  (* K04-mixed-text: text is set on an element that has sub-elements: they are dropped without index cleanup *)
-  | OpSetCData h v => has_elems w h || short_edit_collides w h v
   (* K04-front for text items of mixed content *)
   | OpInsertCItem h _ pos => (pos =? 0) && identifiable T w h
   | OpRemoveCItem h pos =>
